@@ -1,1 +1,340 @@
--- property theorems for C15 (stub)
+import JanetModel.Spec.Model
+import JanetModel.Bytecode.VMPasses
+
+/-!
+C15 - compiler specialisations of core functions preserve behaviour (theorems only).
+
+* `inline_eq_generic_row`   for ANY pair (row of `optimizers[]`, template) that satisfies the checkable condition
+                            `rowAgrees true`, inline evaluation = generic evaluation for all argument lists, all immediate /
+                            non-immediate operand mixes, all worlds: same value, same error, same sequence of method calls.
+* `rows_agree_partial`      the regenerated tables (Gen/Cfuns.lean) satisfy `rowAgrees false` for every variadic row, and
+                            `rowAgrees true` for every variadic row except `-` (kernel `decide`, re-run on every check).
+* `inline_eq_generic_partial`  the instance: every variadic core function except unary `-`.
+* `unary_minus_differs`     the missing part is false on the unchanged tree: witness.
+* `imm_agrees`              (Bytecode/VM.lean) immediates.
+* `fixed_rows_consistent`   arity guards / single-instruction asm bodies of the fixed-arity rows.
+* `remove_noops_*`, `movopt_tables_sound_partial`, `movopt_getindex`   clean-up passes (Bytecode/VMPasses.lean).
+-/
+
+namespace JanetModel.Props.C15
+open JanetModel.Gen.Bytecode JanetModel.Gen.Cfuns JanetModel.Bytecode.VM JanetModel.Spec
+
+variable (P : Prims)
+
+/-- an accumulation step with an immediate operand is the step on the operand's value -/
+theorem stepInline_eq (op : Op) (opim : Option Op) (h : immOk op opim = true) (acc : P.V) (a : Arg P) (ha : a.wf P) :
+    stepInline P op opim acc a = binop P op acc a.v := by
+  unfold stepInline
+  cases opim with
+  | none => rfl
+  | some oi =>
+    cases hi : a.imm with
+    | none => rfl
+    | some i =>
+      have hb : immBase oi = some op := by simpa [immOk] using h
+      have hv := (ha i hi).1
+      simp only []
+      rw [imm_agrees P oi op hb, hv]
+
+theorem foldl_stepInline_eq (op : Op) (opim : Option Op) (h : immOk op opim = true) (rest : List (Arg P))
+    (hw : ∀ a ∈ rest, a.wf P) (t : P.V) :
+    M.foldl (stepInline P op opim) t rest = M.foldl (binop P op) t (rest.map (·.v)) := by
+  induction rest generalizing t with
+  | nil => rfl
+  | cons a as ih =>
+    simp only [M.foldl, List.map_cons]
+    rw [stepInline_eq P op opim h t a (hw a List.mem_cons_self)]
+    congr 1
+    funext t'
+    exact ih (fun a' ha' => hw a' (List.mem_cons_of_mem _ ha')) t'
+
+/-- variadic arithmetic: `opreduce` with constants and opcodes that agree with the template computes what the template
+    computes, for every argument list (left-to-right accumulation; immediates or not) -/
+theorem opreduce_eq_varop_gen (special : Option (Op × Op × Int)) (op : Op) (opim : Option Op) (n u : Int)
+    (h : immOk op opim = true) (hs : ∀ sop rop k, special = some (sop, rop, k) → op ≠ sop)
+    (args : List (Arg P)) (hw : ∀ a ∈ args, a.wf P) :
+    evalOpreduce P special op opim (.int n) (.int u) args = evalVarop P n u op (args.map (·.v)) := by
+  match args, hw with
+  | [], _ => rfl
+  | [x], _ =>
+    simp only [evalOpreduce, evalVarop, List.map_cons, List.map_nil, constVal]
+    cases special with
+    | none => rfl
+    | some s =>
+      obtain ⟨sop, rop, k⟩ := s
+      have : op ≠ sop := hs sop rop k rfl
+      simp [this]
+  | x :: y :: rest, hw =>
+    simp only [evalOpreduce, evalVarop, List.map_cons]
+    rw [stepInline_eq P op opim h x.v y (hw y (by simp))]
+    congr 1
+    funext t
+    exact foldl_stepInline_eq P op opim h rest (fun a ha => hw a (by simp [ha])) t
+
+theorem opreduce_eq_varop (op : Op) (opim : Option Op) (n u : Int) (h : immOk op opim = true)
+    (hs : isUnarySpecial op = false) (args : List (Arg P)) (hw : ∀ a ∈ args, a.wf P) :
+    evalOpreduce P opreduceUnarySpecial op opim (.int n) (.int u) args = evalVarop P n u op (args.map (·.v)) :=
+  opreduce_eq_varop_gen P opreduceUnarySpecial op opim n u h (isUnarySpecialOf_false _ op hs) args hw
+
+/-- the same without the hypothesis on the unary special case, for every arity but one -/
+theorem opreduce_eq_varop_not_unary (op : Op) (opim : Option Op) (n u : Int) (h : immOk op opim = true)
+    (args : List (Arg P)) (hw : ∀ a ∈ args, a.wf P) (hlen : args.length ≠ 1) :
+    evalOpreduce P opreduceUnarySpecial op opim (.int n) (.int u) args = evalVarop P n u op (args.map (·.v)) := by
+  match args, hw, hlen with
+  | [], _, _ => rfl
+  | [x], _, hl => exact absurd rfl hl
+  | x :: y :: rest, hw, _ =>
+    simp only [evalOpreduce, evalVarop, List.map_cons]
+    rw [stepInline_eq P op opim h x.v y (hw y (by simp))]
+    congr 1
+    funext t
+    exact foldl_stepInline_eq P op opim h rest (fun a ha => hw a (by simp [ha])) t
+
+/-- comparison opcodes produce janet booleans -/
+def cmpVal (op : Op) (a b : P.V) : Bool :=
+  match kindOf op with
+  | .rel => if P.isNum a && P.isNum b then P.numRel op a b else P.cmpRel op a b
+  | .eq => P.eqv a b
+  | .neq => !P.eqv a b
+  | _ => false
+
+theorem binop_cmp (op : Op) (h : kindOf op = .rel ∨ kindOf op = .eq ∨ kindOf op = .neq) (a b : P.V) :
+    binop P op a b = M.pure (ofBool P (cmpVal P op a b)) := by
+  unfold binop cmpVal
+  rcases h with h | h | h <;> rw [h] <;> rfl
+
+/-- chain lemma: if the inline comparison is the generic comparison xor `invert`, the inline chain with its early
+    exits computes what the generic loop computes -/
+theorem goInline_eq_goGeneric (opI opG : Op) (opim : Option Op) (invert : Bool) (hi : immOk opI opim = true)
+    (hI : kindOf opI = .rel ∨ kindOf opI = .eq ∨ kindOf opI = .neq)
+    (hG : kindOf opG = .rel ∨ kindOf opG = .eq ∨ kindOf opG = .neq)
+    (hx : ∀ a b, cmpVal P opI a b = (cmpVal P opG a b != invert))
+    (rest : List (Arg P)) (a : P.V) (b : Arg P) (hb : b.wf P) (hw : ∀ c ∈ rest, c.wf P) :
+    goInline P opI opim invert a b rest = goGeneric P invert opG a b.v (rest.map (·.v)) := by
+  induction rest generalizing a b with
+  | nil =>
+    simp only [goInline, goGeneric, List.map_nil]
+    rw [stepInline_eq P opI opim hi a b hb, binop_cmp P opI hI, binop_cmp P opG hG, M.pure_bind, hx]
+    simp only [truthy_ofBool]
+    cases cmpVal P opG a b.v <;> cases invert <;> rfl
+  | cons c rest ih =>
+    simp only [goInline, goGeneric, List.map_cons]
+    rw [stepInline_eq P opI opim hi a b hb, binop_cmp P opI hI, binop_cmp P opG hG, M.pure_bind, M.pure_bind, hx]
+    simp only [truthy_ofBool]
+    have ihc := ih b.v c (hw c List.mem_cons_self) (fun c' hc' => hw c' (List.mem_cons_of_mem _ hc'))
+    cases hv : cmpVal P opG a b.v <;> cases invert <;> simp [ihc]
+
+theorem compreduce_eq_comparator (opI opG : Op) (opim : Option Op) (invert : Bool) (hi : immOk opI opim = true)
+    (hc : (if invert then kindOf opI == .neq && kindOf opG == .eq else opI == opG && (kindOf opI == .rel || kindOf opI == .eq)) = true)
+    (args : List (Arg P)) (hw : ∀ a ∈ args, a.wf P) :
+    evalCompreduce P opI opim invert args = evalComparator P invert opG (args.map (·.v)) := by
+  have key : (kindOf opI = .rel ∨ kindOf opI = .eq ∨ kindOf opI = .neq) ∧ (kindOf opG = .rel ∨ kindOf opG = .eq ∨ kindOf opG = .neq) ∧
+      ∀ a b, cmpVal P opI a b = (cmpVal P opG a b != invert) := by
+    cases invert with
+    | true =>
+      simp only [if_true, Bool.and_eq_true, beq_iff_eq] at hc
+      refine ⟨Or.inr (Or.inr hc.1), Or.inr (Or.inl hc.2), ?_⟩
+      intro a b
+      simp [cmpVal, hc.1, hc.2]
+    | false =>
+      simp only [Bool.false_eq_true, if_false, Bool.and_eq_true, beq_iff_eq, Bool.or_eq_true] at hc
+      obtain ⟨he, hk⟩ := hc
+      subst he
+      have hk' : kindOf opI = .rel ∨ kindOf opI = .eq ∨ kindOf opI = .neq := by
+        rcases hk with h | h
+        · exact Or.inl h
+        · exact Or.inr (Or.inl h)
+      exact ⟨hk', hk', by intro a b; simp⟩
+  obtain ⟨hI, hG, hx⟩ := key
+  match args, hw with
+  | [], _ => rfl
+  | [_], _ => rfl
+  | x :: y :: rest, hw =>
+    simp only [evalCompreduce, evalComparator, List.map_cons]
+    exact goInline_eq_goGeneric P opI opG opim invert hi hI hG hx rest x.v y (hw y (by simp)) (fun c hc' => hw c (by simp [hc']))
+
+/-- ★ generic row theorem: an arbitrary row / template pair that passes the checkable agreement condition is inline =
+    generic on every argument list (argument values are evaluated before either side runs; both sides consume them
+    left to right, so the order of method calls and the point of the first error coincide) -/
+theorem inline_eq_generic_row (r : OptRow) (t : CoreFun) (h : rowAgrees true r t = true)
+    (args : List (Arg P)) (hw : ∀ a ∈ args, a.wf P) :
+    ∃ m, evalInline P r args = some m ∧ evalGeneric P t (args.map (·.v)) = some m := by
+  unfold rowAgrees at h
+  simp only [Bool.and_eq_true] at h
+  obtain ⟨_, h⟩ := h
+  unfold evalInline evalGeneric
+  cases hh : r.handler with
+  | opreduce op opim nullary unary =>
+    cases hk : t.kind with
+    | varop n u opG =>
+      rw [hh, hk] at h
+      simp only [Bool.and_eq_true, beq_iff_eq, Bool.or_eq_true, Bool.not_eq_true', Bool.not_eq_true, Bool.true_eq_false, false_or] at h
+      obtain ⟨⟨⟨⟨⟨he, hn⟩, hu⟩, hi⟩, _⟩, hs⟩ := h
+      subst he hn hu
+      exact ⟨_, rfl, by rw [opreduce_eq_varop P op opim n u hi hs args hw]⟩
+    | comparator _ _ => rw [hh, hk] at h; simp at h
+    | asm => rw [hh, hk] at h; simp at h
+    | apply => rw [hh, hk] at h; simp at h
+  | compreduce op opim inv =>
+    cases hk : t.kind with
+    | comparator invG opG =>
+      rw [hh, hk] at h
+      simp only [Bool.and_eq_true, beq_iff_eq] at h
+      obtain ⟨⟨⟨he, hi⟩, _⟩, hc⟩ := h
+      subst he
+      exact ⟨_, rfl, by rw [compreduce_eq_comparator P op opG opim inv hi hc args hw]⟩
+    | varop _ _ _ => rw [hh, hk] at h; simp at h
+    | asm => rw [hh, hk] at h; simp at h
+    | apply => rw [hh, hk] at h; simp at h
+  | opfunction _ _ => rw [hh] at h; simp at h
+  | genericSS _ => rw [hh] at h; simp at h
+  | special _ => rw [hh] at h; simp at h
+
+/-- the rows of the variadic families paired with the template of the same tag -/
+def variadicPairs : List (OptRow × CoreFun) :=
+  (optimizers.filter isVariadic).filterMap fun r => (templateOf r.tag).map fun t => (r, t)
+
+/-- ★ obligation on the REGENERATED tables (re-checked by the kernel on every run): every variadic row has a template;
+    all of them agree in opcode, immediate opcode, nullary / unary constants, invert flag and (absent) arity guard; all
+    but the row of `-` also pass the unary-special-case conjunct -/
+theorem rows_agree_partial :
+    variadicPairs.length = (optimizers.filter isVariadic).length ∧
+    (∀ p ∈ variadicPairs, rowAgrees false p.1 p.2 = true) ∧
+    (∀ p ∈ variadicPairs, p.1.tagName ≠ "SUBTRACT" → rowAgrees true p.1 p.2 = true) := by
+  decide +kernel
+
+/-- there are 19 of them: + - * / div mod % band bor bxor blshift brshift brushift < > <= >= = not= -/
+theorem variadic_count : variadicPairs.length = 13 + 6 := by decide +kernel
+
+/-- ★ instance: every variadic core function except `-` -/
+theorem inline_eq_generic_partial (p : OptRow × CoreFun) (hp : p ∈ variadicPairs) (hne : p.1.tagName ≠ "SUBTRACT")
+    (args : List (Arg P)) (hw : ∀ a ∈ args, a.wf P) :
+    ∃ m, evalInline P p.1 args = some m ∧ evalGeneric P p.2 (args.map (·.v)) = some m :=
+  inline_eq_generic_row P p.1 p.2 (rows_agree_partial.2.2 p hp hne) args hw
+
+/-- `-` agrees with its template on every call that is not unary -/
+theorem subtract_eq_generic_not_unary (args : List (Arg P)) (hw : ∀ a ∈ args, a.wf P) (hlen : args.length ≠ 1) :
+    evalOpreduce P opreduceUnarySpecial .subtract (some .subtractImmediate) (.int 0) (.int 0) args =
+      evalVarop P 0 0 .subtract (args.map (·.v)) :=
+  opreduce_eq_varop_not_unary P .subtract (some .subtractImmediate) 0 0 (by decide) args hw hlen
+
+/-- the row of `-` really is the row the previous theorem talks about -/
+theorem subtract_row :
+    ∃ r ∈ optimizers, ∃ t ∈ templates, r.tagName = "SUBTRACT" ∧ r.handler = .opreduce .subtract (some .subtractImmediate) (.int 0) (.int 0) ∧
+      t.tag = r.tag ∧ t.kind = .varop 0 0 .subtract := by
+  decide +kernel
+
+/-! ### the missing part is false on the unchanged tree: unary minus -/
+
+namespace Witness
+
+/-- a tiny universe: integers, one table with a `:*` and a `:r-` method, the two method objects -/
+inductive WV where
+  | n (i : Int)
+  | tab
+  | mMul
+  | mRSub
+  deriving DecidableEq, Repr
+
+def isNum : WV → Bool
+  | .n _ => true
+  | _ => false
+
+def lookup : WV → String → Option WV
+  | .tab, m => if m = "*" then some .mMul else if m = "r-" then some .mRSub else none
+  | _, _ => none
+
+/-- the world is the log of invoked methods -/
+def invoke : WV → List WV → List String → Except String WV × List String
+  | .mMul, _, w => (.ok (.n 1), w ++ ["*"])
+  | .mRSub, _, w => (.ok (.n 2), w ++ ["r-"])
+  | _, _, w => (.error "not callable", w)
+
+def WP : Prims where
+  V := WV
+  E := String
+  W := List String
+  num := .n
+  nil := .tab
+  tru := .n 1
+  fls := .n 0
+  truthy := fun v => v != .n 0
+  isNil := fun _ => false
+  isNum := isNum
+  num_isNum := fun _ => rfl
+  truthy_tru := by decide
+  truthy_fls := by decide
+  arith := fun op a b =>
+    match op, a, b with
+    | .subtract, .n x, .n y => .ok (.n (x - y))
+    | .multiply, .n x, .n y => .ok (.n (x * y))
+    | _, _, _ => .error "unsupported"
+  lookup := lookup
+  lookup_num := by
+    intro x m h
+    cases x <;> simp_all [isNum, lookup]
+  invoke := invoke
+  noMethod := fun m _ => "nomethod " ++ m
+  numRel := fun _ _ _ => false
+  cmpRel := fun _ _ _ => false
+  eqv := fun a b => a == b
+  numEq := fun a b => a == b
+  eqv_num := by
+    intro a i
+    cases a <;> simp [isNum]
+  other := fun _ _ _ w => (.error "unsupported", w)
+  unary := fun _ _ w => (.error "unsupported", w)
+
+def theArg : Arg WP := ⟨.tab, none⟩
+
+end Witness
+
+/-- ★ witness: as long as `opreduce` has its unary special case (`x * -1` for `-`), inline `(- t)` and generic `(- t)`
+    differ for a table `t` with operator methods: inline runs `t * -1` (method `:*`), the template runs `0 - t`
+    (method `:r-`).  Stated as an implication so that it is also a theorem on a tree where the special case is gone. -/
+theorem unary_minus_differs_gen (sp : Option (Op × Op × Int)) (h : sp = some (.subtract, .multiplyImmediate, -1)) :
+    (evalOpreduce Witness.WP sp .subtract (some .subtractImmediate) (.int 0) (.int 0) [Witness.theArg] []).2 = ["*"] ∧
+    (evalVarop Witness.WP 0 0 .subtract [Witness.theArg.v] []).2 = ["r-"] := by
+  subst h
+  exact ⟨rfl, rfl⟩
+
+theorem unary_minus_differs :
+    opreduceUnarySpecial = some (.subtract, .multiplyImmediate, -1) →
+    (evalOpreduce Witness.WP opreduceUnarySpecial .subtract (some .subtractImmediate) (.int 0) (.int 0) [Witness.theArg] []).2 = ["*"] ∧
+    (evalVarop Witness.WP 0 0 .subtract [Witness.theArg.v] []).2 = ["r-"] :=
+  fun h => unary_minus_differs_gen opreduceUnarySpecial h
+
+/-- the full statement for all rows holds exactly when the unary special case is absent -/
+theorem rows_agree_all_or_unary_special :
+    (∀ p ∈ variadicPairs, rowAgrees true p.1 p.2 = true) ∨ opreduceUnarySpecial ≠ none := by
+  decide +kernel
+
+/-- the witness argument is a legal argument -/
+example : Witness.theArg.wf Witness.WP := by intro i h; cases h
+
+/-- non-vacuity: the generic theorem applies to a non-trivial call, e.g. `(+ t 5 t)` with the immediate 5 -/
+example : ∃ m, evalInline Witness.WP (optimizers.getD 8 default) [⟨.tab, none⟩, ⟨.n 5, some 5⟩, ⟨.tab, none⟩] = some m := ⟨_, rfl⟩
+
+/-! ### fixed-arity rows -/
+
+/-- ★ every row has a template of the same tag; whenever an arity guard admits a call the generic function accepts that
+    arity; the single-instruction handlers (`genericSS`, `opfunction`) have exactly the one-instruction asm body -/
+theorem fixed_rows_consistent :
+    ∀ r ∈ optimizers, ∃ t ∈ templates, t.tag = r.tag ∧ guardWithinArity r t = true ∧ asmShapeOk r t = true := by
+  decide +kernel
+
+/-! ### clean-up passes (statements proved in Bytecode/VMPasses.lean) -/
+
+open JanetModel.Bytecode.VMPasses in
+/-- ★ instance of the movopt side conditions on the REGENERATED tables (reads ⊇ what the VM reads; a removable opcode
+    writes the tested field and is pure or never actually removed) - for every opcode except `JOP_GET_INDEX` -/
+theorem movopt_tables_sound_partial : ∀ op ∈ Op.all, op ≠ .getIndex → movoptOpOk op = true := by
+  decide +kernel
+
+open JanetModel.Bytecode.VMPasses in
+/-- the missing part: `JOP_GET_INDEX` is either not removable, or it is removable although it is not pure (it raises on a
+    non-indexed operand) - the second disjunct is what holds on the unchanged tree -/
+theorem movopt_getindex : movoptRemovable .getIndex = none ∨ (movoptRemovable .getIndex = some .a ∧ ¬ (Op.getIndex ∈ pureOps)) := by
+  decide +kernel
+
+end JanetModel.Props.C15
